@@ -782,8 +782,13 @@ where
                     && (self_buf.data_ptr() == other_buf.data_ptr())
                     && other.aux() == self.aux() + self.raw_len()
                 {
-                    self.set_len(new_len);
-                    return;
+                    // Adjacent slices of one buffer can be joined in place,
+                    // unless the format has to fix up the junction.
+                    let fixup = F::fixup(self.as_byte_slice(), other.as_byte_slice());
+                    if fixup.drop_left == 0 && fixup.drop_right == 0 && fixup.insert_len == 0 {
+                        self.set_len(new_len);
+                        return;
+                    }
                 }
             }
 
